@@ -14,9 +14,11 @@ import (
 	"math/big"
 	"net"
 	"net/url"
+	"os"
 	"regexp"
 	"runtime"
 	"sort"
+	"strconv"
 	"strings"
 	"sync"
 	"sync/atomic"
@@ -63,6 +65,28 @@ func initCerts() {
 	})
 }
 
+var (
+	otherOnce sync.Once
+	otherC    tls.Certificate
+)
+
+// otherCert: a self-signed leaf the proxy's root pool does not contain.
+func otherCert() tls.Certificate {
+	otherOnce.Do(func() {
+		key, _ := ecdsa.GenerateKey(elliptic.P256(), rand.Reader)
+		t := &x509.Certificate{SerialNumber: big.NewInt(3), Subject: pkix.Name{CommonName: "127.0.0.1"},
+			NotBefore: time.Now().Add(-time.Hour), NotAfter: time.Now().Add(24 * time.Hour),
+			KeyUsage: x509.KeyUsageDigitalSignature, ExtKeyUsage: []x509.ExtKeyUsage{x509.ExtKeyUsageServerAuth},
+			IPAddresses: []net.IP{net.ParseIP("127.0.0.1")}}
+		der, err := x509.CreateCertificate(rand.Reader, t, t, &key.PublicKey, key)
+		if err != nil {
+			panic(err)
+		}
+		otherC = tls.Certificate{Certificate: [][]byte{der}, PrivateKey: key}
+	})
+	return otherC
+}
+
 // ---- goroutine dump, filtered to frames of martian/v3/h2 ----
 
 type gor struct {
@@ -75,15 +99,22 @@ type gor struct {
 
 var gorHead = regexp.MustCompile(`^goroutine (\d+) \[([^\]]*)\]`)
 
+var (
+	dumpMu  sync.Mutex
+	dumpBuf = make([]byte, 1<<20) // reused: the collector is off while a case runs
+)
+
 func h2Goroutines() []gor {
-	buf := make([]byte, 1<<20)
+	dumpMu.Lock()
+	defer dumpMu.Unlock()
+	var buf []byte
 	for {
-		n := runtime.Stack(buf, true)
-		if n < len(buf) {
-			buf = buf[:n]
+		n := runtime.Stack(dumpBuf, true)
+		if n < len(dumpBuf) {
+			buf = dumpBuf[:n]
 			break
 		}
-		buf = make([]byte, 2*len(buf))
+		dumpBuf = make([]byte, 2*len(dumpBuf))
 	}
 	var out []gor
 	for _, blk := range strings.Split(string(buf), "\n\n") {
@@ -121,6 +152,14 @@ func h2Goroutines() []gor {
 			g.kind = "watcher"
 		case strings.Contains(blk, "h2.(*Config).Proxy("):
 			g.kind = "main"
+			switch {
+			case strings.Contains(blk, "h2.forwardPreface(") && strings.Contains(blk, "io.ReadFull"):
+				g.site = "preface-read"
+			case strings.Contains(blk, "h2.forwardPreface("):
+				g.site = "preface-write"
+			case strings.Contains(blk, "tls.Dial"):
+				g.site = "dial"
+			}
 		default:
 			g.kind = "other"
 		}
@@ -146,15 +185,165 @@ func kindsOf(gs []gor) string {
 type faultConn struct {
 	net.Conn
 	failWrites atomic.Bool
+	inWrite    atomic.Int32 // Write calls that have not returned (waiting at the gate or inside the pipe)
+
+	mu      sync.Mutex
+	gate    chan struct{} // closed = the client takes bytes; replaced by an open channel while it is stalled
+	stalled bool
+	failCh  chan struct{} // closed by fail()
+	closeCh chan struct{} // closed by Close()
+	once    sync.Once
+}
+
+func newFaultConn(c net.Conn) *faultConn {
+	g := make(chan struct{})
+	close(g)
+	return &faultConn{Conn: c, gate: g, failCh: make(chan struct{}), closeCh: make(chan struct{})}
 }
 
 var errInjected = errors.New("injected write failure")
 
+// Write: while the client is stalled no byte passes and the call blocks (a peer that keeps the
+// connection open but does not read); fail() and Close() end a blocked call.
 func (c *faultConn) Write(b []byte) (int, error) {
 	if c.failWrites.Load() {
 		return 0, errInjected
 	}
-	return c.Conn.Write(b)
+	c.inWrite.Add(1)
+	defer c.inWrite.Add(-1)
+	for {
+		c.mu.Lock()
+		g := c.gate
+		c.mu.Unlock()
+		select {
+		case <-g:
+		case <-c.failCh:
+			return 0, errInjected
+		case <-c.closeCh:
+			return 0, io.ErrClosedPipe
+		}
+		c.mu.Lock()
+		open := !c.stalled
+		c.mu.Unlock()
+		if open {
+			break
+		}
+	}
+	n, err := c.Conn.Write(b)
+	if c.failWrites.Load() && err != nil {
+		return n, errInjected
+	}
+	return n, err
+}
+
+func (c *faultConn) Close() error {
+	c.once.Do(func() { close(c.closeCh) })
+	return c.Conn.Close()
+}
+
+func (c *faultConn) stall(on bool) {
+	c.mu.Lock()
+	defer c.mu.Unlock()
+	if on && !c.stalled {
+		c.gate = make(chan struct{})
+		c.stalled = true
+	} else if !on && c.stalled {
+		c.stalled = false
+		close(c.gate)
+	}
+}
+
+// fail makes every write toward the client fail from now on, a blocked one too.
+func (c *faultConn) fail() {
+	if !c.failWrites.Swap(true) {
+		close(c.failCh)
+	}
+	c.Conn.SetWriteDeadline(time.Unix(1, 0))
+}
+
+// ---- the client's sending side: an in-order queue, so that (as with a TCP socket) a write of the
+// client does not wait for the relay to read; a close is queued behind the bytes written before it.
+
+type sendQ struct {
+	mu     sync.Mutex
+	cond   *sync.Cond
+	items  [][]byte // nil item = close the connection
+	closed bool     // the pump has closed the connection (or was stopped)
+	conn   net.Conn
+}
+
+func newSendQ(c net.Conn) *sendQ {
+	q := &sendQ{conn: c}
+	q.cond = sync.NewCond(&q.mu)
+	go q.pump()
+	return q
+}
+
+func (q *sendQ) Write(b []byte) (int, error) {
+	q.mu.Lock()
+	defer q.mu.Unlock()
+	if q.closed {
+		return 0, io.ErrClosedPipe
+	}
+	q.items = append(q.items, append([]byte{}, b...))
+	q.cond.Signal()
+	return len(b), nil
+}
+
+func (q *sendQ) closeAfterPending() {
+	q.mu.Lock()
+	q.items = append(q.items, nil)
+	q.cond.Signal()
+	q.mu.Unlock()
+}
+
+// stop ends the pump (teardown): pending bytes are dropped.
+func (q *sendQ) stop() {
+	q.mu.Lock()
+	q.closed = true
+	q.items = nil
+	q.cond.Signal()
+	q.mu.Unlock()
+	q.conn.Close()
+}
+
+func (q *sendQ) pending() int {
+	q.mu.Lock()
+	defer q.mu.Unlock()
+	return len(q.items)
+}
+
+func (q *sendQ) pump() {
+	for {
+		q.mu.Lock()
+		for len(q.items) == 0 && !q.closed {
+			q.cond.Wait()
+		}
+		if q.closed {
+			q.mu.Unlock()
+			return
+		}
+		it := q.items[0]
+		q.mu.Unlock()
+		var err error
+		if it == nil {
+			q.conn.Close()
+			err = io.ErrClosedPipe
+		} else {
+			_, err = q.conn.Write(it)
+		}
+		q.mu.Lock()
+		if err != nil {
+			q.closed = true
+			q.items = nil
+			q.mu.Unlock()
+			return
+		}
+		if len(q.items) > 0 {
+			q.items = q.items[1:]
+		}
+		q.mu.Unlock()
+	}
 }
 
 // ---- one relay session: raw client <-net.Pipe-> Config.Proxy <-TLS/TCP-> raw server ----
@@ -177,6 +366,12 @@ func (p *peerStats) get() (frames, data int, ended bool) {
 type session struct {
 	base map[string]bool // goroutine ids that existed before
 
+	mode       string // server behaviour: ok | refuse | tlsfail
+	prefaced   bool   // the client has sent (something as) its preface
+	running    bool   // the good preface reached the server: the relays run
+	srvGotConn atomic.Bool
+	scInode    string // inode of the proxy's end of the upstream connection ("" = not identified)
+
 	ln        net.Listener
 	closing   chan bool
 	closeOnce sync.Once
@@ -186,9 +381,7 @@ type session struct {
 	cf       *http2.Framer
 	cfMu     sync.Mutex
 	cstat    peerStats
-	cGate    chan struct{} // closed = client reads; replaced when stalled
-	cGateMu  sync.Mutex
-	cStalled bool
+	cq       *sendQ // the client's sending side
 	cClosed  bool
 
 	srvConn  *tls.Conn
@@ -221,6 +414,36 @@ func baseline() map[string]bool {
 	return m
 }
 
+// stable waits (bounded) until the session's goroutines have all come to rest — none running or
+// runnable, the same picture in three consecutive dumps — and returns that picture: a reader between
+// two iterations of its loop has no ReadFrame goroutine for a moment.
+func (s *session) stable() []gor {
+	var last string
+	same := 0
+	var gs []gor
+	end := time.Now().Add(500 * time.Millisecond)
+	for {
+		gs = s.mine()
+		busy := false
+		for _, g := range gs {
+			if g.state == "running" || g.state == "runnable" {
+				busy = true
+			}
+		}
+		k := kindsOf(gs)
+		if !busy && k == last {
+			same++
+		} else {
+			same = 0
+		}
+		last = k
+		if same >= 2 || time.Now().After(end) {
+			return gs
+		}
+		time.Sleep(time.Millisecond)
+	}
+}
+
 func (s *session) mine() []gor {
 	var out []gor
 	for _, g := range h2Goroutines() {
@@ -231,11 +454,14 @@ func (s *session) mine() []gor {
 	return out
 }
 
-const ioDeadline = 2 * time.Second
+const ioDeadline = 5 * time.Second
 
-func startSession() (*session, error) {
+// begin creates the endpoints and calls Config.Proxy. mode: "ok" (raw TLS h2 server), "refuse"
+// (nobody listens: the TCP connect fails), "tlsfail" (a TCP server that never completes the TLS
+// handshake; variant close | garbage | badcert).
+func begin(mode, variant string) (*session, error) {
 	initCerts()
-	s := &session{base: baseline(), closing: make(chan bool), returned: make(chan struct{}), srvReady: make(chan error, 1)}
+	s := &session{base: baseline(), mode: mode, closing: make(chan bool), returned: make(chan struct{}), srvReady: make(chan error, 1)}
 	s.cstat.typ = map[http2.FrameType]int{}
 	s.sstat.typ = map[http2.FrameType]int{}
 	s.henc = map[string]*hpack.Encoder{}
@@ -244,43 +470,215 @@ func startSession() (*session, error) {
 		s.hbuf[d] = &bytes.Buffer{}
 		s.henc[d] = hpack.NewEncoder(s.hbuf[d])
 	}
-	ln, err := tls.Listen("tcp", "127.0.0.1:0", &tls.Config{Certificates: []tls.Certificate{srvCert}, NextProtos: []string{"h2"}})
-	if err != nil {
-		return nil, err
+	var addr string
+	switch mode {
+	case "ok":
+		ln, err := tls.Listen("tcp", "127.0.0.1:0", &tls.Config{Certificates: []tls.Certificate{srvCert}, NextProtos: []string{"h2"}})
+		if err != nil {
+			return nil, err
+		}
+		s.ln = ln
+		addr = ln.Addr().String()
+		go s.serve()
+	case "refuse":
+		ln, err := net.Listen("tcp", "127.0.0.1:0")
+		if err != nil {
+			return nil, err
+		}
+		addr = ln.Addr().String()
+		ln.Close()
+	case "tlsfail":
+		var ln net.Listener
+		var err error
+		if variant == "badcert" { // a certificate the proxy's root pool does not know
+			ln, err = tls.Listen("tcp", "127.0.0.1:0", &tls.Config{Certificates: []tls.Certificate{otherCert()}, NextProtos: []string{"h2"}})
+		} else {
+			ln, err = net.Listen("tcp", "127.0.0.1:0")
+		}
+		if err != nil {
+			return nil, err
+		}
+		s.ln = ln
+		addr = ln.Addr().String()
+		go func() {
+			c, err := ln.Accept()
+			if err != nil {
+				return
+			}
+			s.srvRaw = c
+			c.SetDeadline(time.Now().Add(ioDeadline))
+			switch variant {
+			case "garbage":
+				c.Write([]byte("HTTP/1.1 400 Bad Request\r\n\r\n"))
+				c.Close()
+			case "badcert":
+				c.(*tls.Conn).Handshake()
+				c.Close()
+			default:
+				c.Close()
+			}
+		}()
+	default:
+		return nil, errors.New("unknown server mode")
 	}
-	s.ln = ln
-	go s.serve()
 
 	c1, c2 := net.Pipe()
 	s.cliConn = c1
-	s.proxyEnd = &faultConn{Conn: c2}
-	s.cf = http2.NewFramer(c1, c1)
-	s.cGate = make(chan struct{})
-	close(s.cGate)
+	s.proxyEnd = newFaultConn(c2)
+	s.cq = newSendQ(c1)
+	s.cf = http2.NewFramer(s.cq, c1)
 
 	cfg := &h2.Config{RootCAs: rootPool, AllowedHostsFilter: func(string) bool { return true }}
-	u := &url.URL{Scheme: "https", Host: ln.Addr().String()}
+	u := &url.URL{Scheme: "https", Host: addr}
 	go func() {
 		s.proxyErr = cfg.Proxy(s.closing, s.proxyEnd, u)
 		s.returnedAt = time.Now()
 		close(s.returned)
 	}()
+	if mode == "ok" {
+		// the dial (TCP + TLS handshake) completes before anything else happens: the stages of a case are
+		// then what its ops say, not what the scheduler made of them
+		if !waitFor(ioDeadline, func() bool { return s.srvGotConn.Load() }) {
+			return s, errors.New("the proxy did not dial the server")
+		}
+		s.scInode = dialledSocket(addr)
+	}
+	return s, nil
+}
 
-	// client: preface + SETTINGS
-	c1.SetWriteDeadline(time.Now().Add(ioDeadline))
-	if _, err := c1.Write([]byte(http2.ClientPreface)); err != nil {
-		return s, fmt.Errorf("client preface: %v", err)
+// dialledSocket finds, in this process, the socket connected TO addr (the proxy's end of the upstream
+// connection; the harness's own end is connected FROM it) and returns its inode.
+func dialledSocket(addr string) string {
+	_, portS, err := net.SplitHostPort(addr)
+	if err != nil {
+		return ""
+	}
+	port, _ := strconv.Atoi(portS)
+	b, err := os.ReadFile("/proc/self/net/tcp")
+	if err != nil {
+		return ""
+	}
+	want := fmt.Sprintf("0100007F:%04X", port)
+	found := ""
+	for _, l := range strings.Split(string(b), "\n")[1:] {
+		f := strings.Fields(l)
+		if len(f) < 10 || f[2] != want || f[1] == want {
+			continue
+		}
+		if f[9] != "0" && fdOpen(f[9]) {
+			if found != "" {
+				return "" // ambiguous
+			}
+			found = f[9]
+		}
+	}
+	return found
+}
+
+// fdOpen: some file descriptor of this process still refers to the socket with this inode.
+func fdOpen(inode string) bool {
+	es, err := os.ReadDir("/proc/self/fd")
+	if err != nil {
+		return true
+	}
+	want := "socket:[" + inode + "]"
+	for _, e := range es {
+		if t, err := os.Readlink("/proc/self/fd/" + e.Name()); err == nil && t == want {
+			return true
+		}
+	}
+	return false
+}
+
+// upstreamClosed: the proxy has closed its end of the upstream connection — seen directly (its file
+// descriptor is gone) or by the server (EOF / close on the accepted connection).
+func (s *session) upstreamClosed() bool {
+	if _, _, ended := s.sstat.get(); ended && !s.sReset {
+		return true
+	}
+	if s.scInode != "" {
+		return !fdOpen(s.scInode)
+	}
+	if s.sReset { // not identified: after a reset by the server itself nothing else can be observed
+		return s.isReturned()
+	}
+	return false
+}
+
+var wrongPreface = []byte("GET / HTTP/1.1\r\nHost: x\r\n\r\n")[:len(http2.ClientPreface)]
+
+// preface: what the client sends first. good | split K (good, in two writes) | wrong (24 other bytes) |
+// short K (K < 24 bytes of the preface, then the client closes) | eof (the client closes at once).
+func (s *session) preface(kind string, k int) error {
+	s.prefaced = true
+	c1 := s.cliConn
+	d := ioDeadline
+	if s.isReturned() || s.mode != "ok" {
+		d = 50 * time.Millisecond // nobody will read
+	}
+	c1.SetWriteDeadline(time.Now().Add(d))
+	defer c1.SetWriteDeadline(time.Time{})
+	pre := []byte(http2.ClientPreface)
+	switch kind {
+	case "eof":
+		s.cClosed = true
+		s.cq.stop()
+		return nil
+	case "short":
+		if k < 1 || k >= len(pre) {
+			k = 10
+		}
+		c1.Write(pre[:k])
+		s.cClosed = true
+		s.cq.stop()
+		return nil
+	case "wrong":
+		_, err := c1.Write(wrongPreface)
+		return err
+	case "split":
+		if k < 1 || k >= len(pre) {
+			k = 10
+		}
+		if _, err := c1.Write(pre[:k]); err != nil {
+			return err
+		}
+		time.Sleep(3 * time.Millisecond)
+		if _, err := c1.Write(pre[k:]); err != nil {
+			return err
+		}
+	default:
+		if _, err := c1.Write(pre); err != nil {
+			return fmt.Errorf("client preface: %v", err)
+		}
+	}
+	if s.mode != "ok" || s.sReset {
+		return nil
 	}
 	select {
 	case err := <-s.srvReady:
 		if err != nil {
-			return s, err
+			return err
 		}
 	case <-time.After(ioDeadline):
-		return s, errors.New("server did not get the preface")
+		return errors.New("server did not get the preface")
 	}
+	s.running = true
 	go s.clientReader()
-	go s.serverReader()
+	// the relays exist once both readers sit in their select with a ReadFrame goroutine each
+	waitFor(ioDeadline, func() bool {
+		n := 0
+		for _, g := range s.mine() {
+			if g.kind == "readframe" {
+				n++
+			}
+		}
+		return n >= 2 || s.isReturned()
+	})
+	return nil
+}
+
+// settings: the SETTINGS exchange of both peers through the relay; counters restart afterwards.
+func (s *session) settings() error {
 	s.cliWrite(func(f *http2.Framer) error { return f.WriteSettings() })
 	s.srvWrite(func(f *http2.Framer) error { return f.WriteSettings() })
 	s.cliWrite(func(f *http2.Framer) error { return f.WriteSettingsAck() })
@@ -291,7 +689,7 @@ func startSession() (*session, error) {
 		return cf >= 2 && sf >= 2
 	})
 	if !ok {
-		return s, errors.New("settings handshake through the relay did not complete")
+		return errors.New("settings handshake through the relay did not complete")
 	}
 	s.cstat.mu.Lock()
 	s.cstat.frames = 0
@@ -299,7 +697,19 @@ func startSession() (*session, error) {
 	s.sstat.mu.Lock()
 	s.sstat.frames = 0
 	s.sstat.mu.Unlock()
-	return s, nil
+	s.stable()
+	return nil
+}
+
+func startSession() (*session, error) {
+	s, err := begin("ok", "")
+	if err != nil {
+		return s, err
+	}
+	if err := s.preface("good", 0); err != nil {
+		return s, err
+	}
+	return s, s.settings()
 }
 
 func waitFor(d time.Duration, cond func() bool) bool {
@@ -322,20 +732,29 @@ func (s *session) serve() {
 		return
 	}
 	tc := c.(*tls.Conn)
+	s.sfMu.Lock()
 	s.srvConn = tc
+	s.sfMu.Unlock()
 	tc.SetDeadline(time.Now().Add(ioDeadline))
 	if err := tc.Handshake(); err != nil {
 		s.srvReady <- fmt.Errorf("server handshake: %v", err)
 		return
 	}
+	// from here on the server only waits: what ends its read is the proxy closing the connection
+	// (or the teardown of the case), never a deadline
+	tc.SetDeadline(time.Time{})
+	s.srvGotConn.Store(true)
 	pre := make([]byte, len(http2.ClientPreface))
 	if _, err := io.ReadFull(tc, pre); err != nil {
+		s.sstat.end(err)
 		s.srvReady <- fmt.Errorf("server preface: %v", err)
 		return
 	}
-	tc.SetDeadline(time.Time{})
+	s.sfMu.Lock()
 	s.sf = http2.NewFramer(tc, tc)
+	s.sfMu.Unlock()
 	s.srvReady <- nil
+	s.serverReader()
 }
 
 func (p *peerStats) record(f http2.Frame) {
@@ -370,10 +789,6 @@ func (s *session) serverReader() {
 
 func (s *session) clientReader() {
 	for {
-		s.cGateMu.Lock()
-		g := s.cGate
-		s.cGateMu.Unlock()
-		<-g
 		f, err := s.cf.ReadFrame()
 		if err != nil {
 			s.cstat.end(err)
@@ -386,11 +801,6 @@ func (s *session) clientReader() {
 func (s *session) cliWrite(fn func(*http2.Framer) error) error {
 	s.cfMu.Lock()
 	defer s.cfMu.Unlock()
-	d := ioDeadline
-	if s.termed { // the relay may already have stopped reading: do not wait long for it to take trailing traffic
-		d = 100 * time.Millisecond
-	}
-	s.cliConn.SetWriteDeadline(time.Now().Add(d))
 	return fn(s.cf)
 }
 
@@ -402,6 +812,12 @@ func (s *session) srvWrite(fn func(*http2.Framer) error) error {
 	}
 	s.srvConn.SetWriteDeadline(time.Now().Add(ioDeadline))
 	return fn(s.sf)
+}
+
+func (s *session) server() *tls.Conn {
+	s.sfMu.Lock()
+	defer s.sfMu.Unlock()
+	return s.srvConn
 }
 
 func (s *session) write(dir string, fn func(*http2.Framer) error) error {
@@ -425,17 +841,7 @@ func (s *session) headerBlock(dir string, sid uint32) []byte {
 	return append([]byte{}, buf.Bytes()...)
 }
 
-func (s *session) stallClient(on bool) {
-	s.cGateMu.Lock()
-	defer s.cGateMu.Unlock()
-	if on && !s.cStalled {
-		s.cGate = make(chan struct{})
-		s.cStalled = true
-	} else if !on && s.cStalled {
-		close(s.cGate)
-		s.cStalled = false
-	}
-}
+func (s *session) stallClient(on bool) { s.proxyEnd.stall(on) }
 
 func (s *session) isReturned() bool {
 	select {
@@ -450,14 +856,17 @@ func (s *session) isReturned() bool {
 func (s *session) teardown() {
 	s.closeOnce.Do(func() { close(s.closing) })
 	s.stallClient(false)
-	if s.cliConn != nil {
-		s.cliConn.Close()
+	if s.cq != nil {
+		s.cq.stop()
 	}
 	if s.proxyEnd != nil {
 		s.proxyEnd.Close()
 	}
-	if s.srvConn != nil {
-		s.srvConn.Close()
+	if c := s.server(); c != nil {
+		c.Close()
+	}
+	if s.srvRaw != nil {
+		s.srvRaw.Close()
 	}
 	if s.ln != nil {
 		s.ln.Close()
